@@ -133,6 +133,8 @@ class _Instr(ast.NodeTransformer):
 				return self.wrap(node, i)  # type: ignore[arg-type]
 			return super().generic_visit(node)
 		if isinstance(node, ast.Lambda):
+			# a function value is outside the property's universe; the expressions of its body (its parameters where they are used) are not
+			node.body = self.visit(node.body)
 			return node
 		return super().generic_visit(node)
 
@@ -155,67 +157,6 @@ def class_name(v: Any) -> str:
 	return t.__name__
 
 
-def optional_template_params(tree: ast.Module, nonfirst: bool = False) -> dict[str, set[int]]:
-	"""generic function / class name -> positions of the parameters declared `T | None` (T a type variable of the module) that
-	precede another parameter mentioning T (read from the source before it is instrumented); with `nonfirst`: the positions of the
-	parameters whose type mentions, at a non-first argument position of a generic type, a type variable no earlier parameter mentions"""
-	tvars = {t.id for n in tree.body if isinstance(n, ast.Assign) and isinstance(n.value, ast.Call) and isinstance(n.value.func, ast.Name)
-		and n.value.func.id == 'TypeVar' for t in n.targets if isinstance(t, ast.Name)}
-
-	def annot(a: ast.expr | None) -> ast.expr | None:
-		if isinstance(a, ast.Constant) and isinstance(a.value, str):
-			try:
-				return ast.parse(a.value, mode='eval').body
-			except SyntaxError:
-				return None
-		return a
-
-	def optional_var(a: ast.expr | None) -> str | None:
-		a = annot(a)
-		if isinstance(a, ast.BinOp) and isinstance(a.op, ast.BitOr):
-			for x, y in ((a.left, a.right), (a.right, a.left)):
-				if isinstance(x, ast.Name) and x.id in tvars and isinstance(y, ast.Constant) and y.value is None:
-					return x.id
-		return None
-
-	def mentions(a: ast.expr | None, tv: str) -> bool:
-		a = annot(a)
-		return a is not None and any(isinstance(x, ast.Name) and x.id == tv for x in ast.walk(a))
-
-	def nonfirst_vars(a: ast.expr | None) -> set[str]:
-		"""type variables at a non-first argument position of a generic type inside the annotation"""
-		a = annot(a)
-		out: set[str] = set()
-		for x in ast.walk(a) if a is not None else []:
-			if isinstance(x, ast.Subscript) and isinstance(x.slice, ast.Tuple):
-				for later in x.slice.elts[1:]:
-					out |= {y.id for y in ast.walk(later) if isinstance(y, ast.Name) and y.id in tvars}
-		return out
-
-	def of(fn: ast.FunctionDef, skip: int) -> set[int]:
-		ps = fn.args.args[skip:]
-		out = set()
-		for i, prm in enumerate(ps):
-			if nonfirst:
-				if any(not any(mentions(e.annotation, tv) for e in ps[:i]) for tv in nonfirst_vars(prm.annotation)):
-					out.add(i)
-				continue
-			tv = optional_var(prm.annotation)
-			if tv and any(mentions(later.annotation, tv) for later in ps[i + 1:]):
-				out.add(i)
-		return out
-
-	res: dict[str, set[int]] = {}
-	for n in tree.body:
-		if isinstance(n, ast.FunctionDef) and of(n, 0):
-			res[n.name] = of(n, 0)
-		elif isinstance(n, ast.ClassDef):
-			for m in n.body:
-				if isinstance(m, ast.FunctionDef) and m.name == '__init__' and of(m, 1):
-					res[n.name] = of(m, 1)
-	return res
-
-
 class Run:
 	"""instrumented execution of one program"""
 
@@ -229,8 +170,9 @@ class Run:
 			if isinstance(n, (ast.For, ast.comprehension)):
 				names = {t.id for t in ast.walk(n.target) if isinstance(t, ast.Name)}
 				self.binders.append((n, names, n.iter))
-		self.opt_tparams = optional_template_params(tree)
-		self.nonfirst_tparams = optional_template_params(tree, nonfirst=True)
+		# lambdas that are the value of an annotated assignment (source spans, read before the tree is instrumented)
+		self.anno_lambdas = [(n.value.lineno, n.value.col_offset, n.value.end_lineno, n.value.end_col_offset)
+			for n in ast.walk(tree) if isinstance(n, ast.AnnAssign) and isinstance(n.value, ast.Lambda)]
 		self.instr = _Instr()
 		tree = ast.fix_missing_locations(self.instr.visit(tree))
 		self.code = compile(tree, '<c03-program>', 'exec')
@@ -388,8 +330,8 @@ def op_name(n: ast.AST) -> str:
 
 # failing input classes listed as known findings (the other names computed below are repaired: listed as fixed)
 UNDERSTOOD = {'dict-get-missing-key', 'list-literal-class-dedup', 'union-of-subclasses-attribute', 'ternary-union-of-containers',
-	'tuple-slice-nonliteral-bounds', 'abs-of-bool', 'min-max-mixed-numeric', 'list-of-dict-items', 'boolop-nonbool-operands', 'explicit-init-call', 'optional-template-none-argument',
-	'template-nonfirst-type-argument'}
+	'tuple-slice-nonliteral-bounds', 'abs-of-bool', 'min-max-mixed-numeric', 'list-of-dict-items', 'boolop-nonbool-operands', 'explicit-init-call',
+	'annotated-lambda-parameter'}
 
 CONTAINER_HEADS = ('list', 'dict', 'tuple')
 
@@ -414,13 +356,18 @@ GENERIC_OF_UNION = re.compile(r'(list|dict|tuple|Iterator|ItemsView|Pair)<[^<>]*
 
 def canonical_key(raw: str, site: dict[str, Any], real: str, runtime: list[str], kids: list[tuple[dict[str, Any], str]],
 		descendants: list[tuple[dict[str, Any], str]], message: str, binder_reals: list[str], class_names: set[str] = frozenset(),  # type: ignore[assignment]
-		opt_tparams: dict[str, set[int]] | None = None, nonfirst_tparams: dict[str, set[int]] | None = None) -> str:
+		anno_lambdas: list[tuple[int, int, int, int]] | None = None) -> str:
 	"""A stable name for a failing input class that is already understood (the predicate is on the failing site itself:
 	node kind, operator, inferred operand types); otherwise the structural key."""
 	n = site['node']
 	kid_real = [r for _, r in kids]
 	if raw.startswith('raises:Errors.Never') and 'Already set attibutes' in message:
 		return 'list-literal-shared-union'
+	if raw.startswith('raises:Errors.Fatal') and 'RecursionError' in message and anno_lambdas:
+		# inside `f: Callable[…] = lambda a: … a …`: typing the parameter types the whole assignment, which types the body, which …
+		sp = site['span']
+		if any((sp[0], sp[1]) >= (l[0], l[1]) and (sp[2], sp[3]) <= (l[2], l[3]) for l in anno_lambdas):
+			return 'annotated-lambda-parameter'
 	if site['kind'] == 'expr':
 		if isinstance(n, ast.UnaryOp) and isinstance(n.op, (ast.USub, ast.UAdd, ast.Invert)) and kid_real == ['bool']:
 			return 'factor-on-bool'
@@ -436,14 +383,6 @@ def canonical_key(raw: str, site: dict[str, Any], real: str, runtime: list[str],
 			return 'tuple-slice' if literal(n.slice.lower) and literal(n.slice.upper) and n.slice.step is None else 'tuple-slice-nonliteral-bounds'
 		if isinstance(n, ast.Call) and isinstance(n.func, ast.Attribute) and n.func.attr == '__init__' and 'None' in runtime:
 			return 'explicit-init-call'
-		if isinstance(n, ast.Call) and isinstance(n.func, ast.Name) and opt_tparams and n.func.id in opt_tparams and not n.keywords \
-				and len(kid_real) == len(n.args) and any(i < len(kid_real) and kid_real[i] == 'None' for i in opt_tparams[n.func.id]) and 'None' in real:
-			# None given for a parameter declared `T | None` that precedes the parameter pinning T: T is bound to None
-			return 'optional-template-none-argument'
-		if isinstance(n, ast.Call) and isinstance(n.func, ast.Name) and nonfirst_tparams and n.func.id in nonfirst_tparams and not n.keywords \
-				and len(kid_real) == len(n.args) and any(i < len(kid_real) and kid_real[i] != 'None' for i in nonfirst_tparams[n.func.id]):
-			# m: dict[str, T] / tuple[int, T] given a value: T is bound to the FIRST argument of the value's type (same cause as list-of-dict-items)
-			return 'template-nonfirst-type-argument'
 		if isinstance(n, ast.Call) and isinstance(n.func, ast.Name) and n.func.id == 'abs' and kid_real == ['bool']:
 			return 'abs-of-bool'
 		if isinstance(n, ast.Call) and isinstance(n.func, ast.Name) and n.func.id in ('min', 'max') and len(set(kid_real)) > 1 \
@@ -454,7 +393,7 @@ def canonical_key(raw: str, site: dict[str, Any], real: str, runtime: list[str],
 		if isinstance(n, ast.BoolOp) and any(r != 'bool' for r in kid_real):
 			return 'boolop-nonbool-operands'
 		if isinstance(n, ast.Call) and isinstance(n.func, ast.Attribute) and n.func.attr == 'get' and len(n.args) == 1 \
-				and kid_real and kid_real[0].startswith('dict<') and 'None' in runtime:
+				and kid_real and (kid_real[0].startswith('dict<') or kid_real[0].startswith(('Union<dict<', 'Union<None, dict<'))) and 'None' in runtime:
 			return 'dict-get-missing-key'
 	if raw.startswith('raises:'):
 		around = [real, *(r for _, r in kids), *(r for _, r in descendants), *binder_reals]
@@ -462,6 +401,13 @@ def canonical_key(raw: str, site: dict[str, Any], real: str, runtime: list[str],
 		for ds, r in [*kids, *descendants]:
 			if isinstance(ds['node'], ast.IfExp) and any(len(ms) > 1 and all(m in CONTAINER_HEADS for m in ms) for ms in union_members(r)[:1]):
 				return 'ternary-union-of-containers'
+		# min / max over int and float typed by its first argument, in a ternary with a float: a Union<int, float> no operator resolves on
+		for ds, r in [*kids, *descendants]:
+			dn = ds['node']
+			if isinstance(dn, ast.Call) and isinstance(dn.func, ast.Name) and dn.func.id in ('min', 'max') and 'OperationNotAllowed' in raw:
+				args = [r2 for s2, r2 in descendants if s2['parent'] == ds['id']]
+				if len(set(args)) > 1 and set(args) <= {'int', 'float', 'bool'}:
+					return 'min-max-mixed-numeric'
 		# a Union of user classes (a list literal over a class and its subclass): no attribute resolves on it
 		if 'UnresolvedSymbol' in raw and class_names:
 			for r in around:
@@ -609,7 +555,7 @@ def compare(run: Run, refl: Any, module: Any) -> tuple[list[dict[str, Any]], dic
 						if rj is not None:
 							binder_reals.append(rj)
 						binder_reals.extend(r for _, r in ((run.instr.sites[k], real_at(k)) for k in descendants_of(j)) if r is not None)
-		key = canonical_key(raw, run.instr.sites[root] if site['kind'] == 'decl' else site, b['real'], b['runtime'], kids, desc, b.get('message', ''), binder_reals, run.class_names, run.opt_tparams, run.nonfirst_tparams)
+		key = canonical_key(raw, run.instr.sites[root] if site['kind'] == 'decl' else site, b['real'], b['runtime'], kids, desc, b.get('message', ''), binder_reals, run.class_names, run.anno_lambdas)
 		if b['why'] == 'raises' and key == raw:
 			# inference fails here because a sub-expression was already mis-typed: the finding belongs to that cause
 			causes = [key_of[j] for j in descendants_of(root) if j in key_of]
